@@ -220,3 +220,64 @@ Proof.
   split; [unfold AV, AT; rewrite (map2_nth' _ _ _ j 0 0 []); [reflexivity|rewrite Lrt, Lre; reflexivity|rewrite Lre; exact Hj]|].
   repeat split; assumption.
 Qed.
+
+(* ChandelierExit on binary64, any stream length: long = RN(mx - RN(ATR * m)) and short = RN(mn + RN(ATR * m)) where mx / mn are the greatest
+   high / least low of the window (elements of the window, hence exact: binary64 order instance), within K Et + 24 (1+K) u M of
+   mx - ATR_real * m and mn + ATR_real * m, for every finite multiplier |m| <= K, negative included *)
+From TA Require Import Proofs.Ring Proofs.MinMaxProofs Proofs.FloatOrder Proofs.Osc Proofs.ResetLift.
+Open Scope R_scope.
+
+Theorem ce_float_error : forall p mu c bars M K, ce_new O p mu = Ok c -> (p < 35184372088832)%N ->
+  finF mu -> Rabs (FR mu) <= K -> 1 <= M -> 4 * (1 + K) * M <= bpow radix2 900 -> Forall (okbar3 M) bars ->
+  Forall okF (map b_high bars) -> Forall okF (map b_low bars) ->
+  let highs := map b_high bars in let lows := map b_low bars in
+  let Et := atr_ebound p M in let D := K * Et + 24 * (1 + K) * u * M in
+  let atrs := ema_stream (kreal p) (trb_stream None (map rb bars)) in
+  forall k, (k < length bars)%nat ->
+    exists lg sh mx mn, nth k (ce_outs O c bars) [] = [lg; sh] /\ finF lg /\ finF sh /\
+      greatest_in O (lastn (N.to_nat p) (firstn (S k) highs)) mx /\ least_in O (lastn (N.to_nat p) (firstn (S k) lows)) mn /\
+      Rabs (FR lg - (FR mx - nth k atrs 0 * FR mu)) <= D /\ Rabs (FR sh - (FR mn + nth k atrs 0 * FR mu)) <= D.
+Proof.
+  intros p mu c bars M K H Hp Fmu Hmu HM1 HKM Hb Hhi Hlo highs lows Et D atrs k Hk. unfold ce_new in H.
+  pose proof u_pos as Hu0. pose proof u_le as Hu1.
+  assert (HK : 0 <= K) by (eapply Rle_trans; [apply Rabs_pos|exact Hmu]).
+  assert (HKM' : (1 + K) * M <= bpow radix2 900) by nra.
+  destruct (atr_new O p) as [a| |] eqn:Ea; cbn in H; try discriminate.
+  destruct (min_new O p) as [mn0| |] eqn:Emn; cbn in H; try discriminate.
+  destruct (max_new O p) as [mx0| |] eqn:Emx; cbn in H; try discriminate. injection H as <-.
+  pose proof (min_new_inv O p mn0 Emn) as (Hp0 & Hpa & _ & _).
+  rewrite min_new_ok in Emn by assumption. injection Emn as <-.
+  rewrite max_new_ok in Emx by assumption. injection Emx as <-.
+  assert (Hpp : (0 < p)%N) by lia.
+  assert (H3M : 3 * M <= bpow radix2 990) by (apply Rle_trans with (bpow radix2 900); [nra|apply bpow_le; lia]).
+  destruct (atr_bar_float_uniform p a bars M Ea Hp HM1 H3M Hb) as [La Ha].
+  rewrite ce_wiring, min_outs_res, max_outs_res. fold highs lows.
+  destruct (min_least O okF float_order_min p 0 0 lows Hpp Hpa Hpp Hpp Hlo) as [Lmin Cmin].
+  destruct (max_greatest O okF p 0 0 highs float_order_max Hpp Hpa Hpp Hpp Hhi) as [Lmax Cmax].
+  assert (Ll : length lows = length bars) by (unfold lows; apply map_length).
+  assert (Lh : length highs = length bars) by (unfold highs; apply map_length).
+  specialize (Cmin k ltac:(lia)). specialize (Cmax k ltac:(lia)).
+  set (mins := min_outs O _ lows) in *. set (maxs := max_outs O _ highs) in *.
+  rewrite (XFast.map3_nth _ _ _ _ k 0%float (inf O) (ninf O) []) by (rewrite ?Lmin, ?Lmax, ?La; lia).
+  set (atr := nth k (atr_bar_outs O a bars) 0%float). set (mn := nth k mins (inf O)) in *. set (mx := nth k maxs (ninf O)) in *.
+  destruct (Ha k Hk) as (Fat & Eat & Rat). fold atr in Fat, Eat. fold atrs in Eat, Rat. fold Et in Eat.
+  assert (Hin : forall (f : Bar float -> float) y, In y (lastn (N.to_nat p) (firstn (S k) (map f bars))) -> exists b, In b bars /\ y = f b).
+  { intros f y Hy. apply in_window_in in Hy. apply in_map_iff in Hy as (b & <- & Ib). exists b. split; [exact Ib|reflexivity]. }
+  rewrite Forall_forall in Hb.
+  destruct Cmin as [Imn Lmn]. destruct Cmax as [Imx Lmx].
+  destruct (Hin b_low mn Imn) as (b1 & Ib1 & E1). destruct (Hin b_high mx Imx) as (b2 & Ib2 & E2).
+  destruct (Hb b1 Ib1) as (_ & [Fmn Bmn] & _). destruct (Hb b2 Ib2) as ([Fmx Bmx] & _). rewrite <- E1 in Fmn, Bmn. rewrite <- E2 in Fmx, Bmx.
+  cbn [add sub mul O].
+  destruct (ebound_small p (3 * M) Hp ltac:(lra)) as [HEt0 HEt].
+  assert (HuM : u * M <= / 1000 * M) by (apply Rmult_le_compat_r; lra).
+  assert (HuM0 : 0 <= u * M) by (apply Rmult_le_pos; lra).
+  assert (HEtM : 0 <= Et <= M) by (unfold Et, atr_ebound; split; lra).
+  assert (HE0 : 0 <= 0 <= M) by lra.
+  assert (Z1 : Rabs (FR mx - FR mx) <= 0) by (rewrite Rminus_diag_eq, Rabs_R0 by reflexivity; lra).
+  assert (Z2 : Rabs (FR mn - FR mn) <= 0) by (rewrite Rminus_diag_eq, Rabs_R0 by reflexivity; lra).
+  destruct (band_err false mx atr mu (FR mx) (nth k atrs 0) M K 0 Et HM1 HK HKM' HE0 HEtM Fmx Fat Fmu Hmu Bmx Rat Z1 Eat) as [Flg Elg].
+  destruct (band_err true mn atr mu (FR mn) (nth k atrs 0) M K 0 Et HM1 HK HKM' HE0 HEtM Fmn Fat Fmu Hmu Bmn Rat Z2 Eat) as [Fsh Esh].
+  exists (mx - atr * mu)%float, (mn + atr * mu)%float, mx, mn.
+  split; [reflexivity|]. split; [exact Flg|]. split; [exact Fsh|]. split; [split; assumption|]. split; [split; assumption|].
+  unfold D. split; [eapply Rle_trans; [exact Elg|lra]|eapply Rle_trans; [exact Esh|lra]].
+Qed.
